@@ -12,6 +12,12 @@ package main
 //	sfb  <field> <order> <len> <bytes> => ok:<v> | reject         FromBytes   (value = bytes mod order, or reject per API)
 //	sbytes <field> <order> <v>         => <bytes>                 Bytes()
 //	swide <field> <order> <bytes>      => ok:<v> | reject         FromWideBytes
+//	sred  <field> <order> <bytes>      => ok:<v> | reject         FromBytesBEReduce (any length; value = bytes mod order)
+//
+// Elements: identity, small multiples of the generator, a doubling walk, zero-coordinate and small-order
+// points, and boundary-coordinate points (boundarySeeks: the curve points nearest to 0, p-1, 2^k and
+// 2^k-1 for the top bit positions, the middle of [2^(bits-1), p) and the top-byte boundary, both signs).
+// Byte strings additionally carry those boundary coordinates (on and off the curve) under every flag.
 //
 // Points are rendered "inf" / "<x>:<y>" (Fp2 "c0/c1"); curve25519 points are rendered in the Edwards
 // coordinates of the underlying representation (the Montgomery map is part of the model).
@@ -883,6 +889,7 @@ func c13DecodeSide(c *Ctx, cd *c13Codec, r *Rng, pts []any) {
 		}
 		xs = append(xs, v)
 	}
+	firstBoundary := len(xs)
 	for i, v := range cd.boundaryRaw(c) { // boundary coordinates (on and off the curve)
 		c.Count("dec." + cd.name + ".boundarycoord")
 		if cd.comps == 1 {
@@ -893,7 +900,7 @@ func c13DecodeSide(c *Ctx, cd *c13Codec, r *Rng, pts []any) {
 			xs = append(xs, []*big.Int{big.NewInt(int64(r.IntN(3))), v})
 		}
 	}
-	for _, x := range xs {
+	for xi, x := range xs {
 		for k := 0; k < 5; k++ {
 			xv := make([]*big.Int, cd.comps)
 			fits := true
@@ -912,8 +919,8 @@ func c13DecodeSide(c *Ctx, cd *c13Codec, r *Rng, pts []any) {
 			flags := cd.flagSpace("compressed")
 			if cd.fam == "sec1" {
 				flags = []int{2, 3}
-			} else if cd.fam == "bls1" || cd.fam == "bls2" {
-				flags = []int{4, 5}
+			} else if (cd.fam == "bls1" || cd.fam == "bls2") && (xi < firstBoundary || k > 0) {
+				flags = []int{4, 5} // boundary coordinates are combined with every flag combination
 			}
 			for _, fl := range flags {
 				both("compressed", cd.compressedOf(xv, fl))
@@ -1183,11 +1190,12 @@ type c13Field struct {
 	wide  int
 	from  func([]byte) (string, error)
 	wideF func([]byte) (string, error)
+	redF  func([]byte) (string, error)
 	bytes func(*big.Int) []byte
 }
 
 func mkField[S interface{ Bytes() []byte }](name string, order *big.Int, size, wide int,
-	from func([]byte) (S, error), wideF func([]byte) (S, error)) c13Field {
+	from func([]byte) (S, error), wideF func([]byte) (S, error), redF func([]byte) (S, error)) c13Field {
 	val := func(s S, err error) (string, error) {
 		if err != nil {
 			return "", err
@@ -1197,6 +1205,7 @@ func mkField[S interface{ Bytes() []byte }](name string, order *big.Int, size, w
 	return c13Field{name: name, order: order, size: size, wide: wide,
 		from:  func(b []byte) (string, error) { return val(from(b)) },
 		wideF: func(b []byte) (string, error) { return val(wideF(b)) },
+		redF:  func(b []byte) (string, error) { return val(redF(b)) },
 		bytes: func(v *big.Int) []byte {
 			s, err := from(beFixed(v, size))
 			if err != nil {
@@ -1210,16 +1219,16 @@ func mkField[S interface{ Bytes() []byte }](name string, order *big.Int, size, w
 func c13Scalars(c *Ctx) {
 	r := NewRng(c.Seed, 1370)
 	fields := []c13Field{
-		mkField("k256.scalar", fieldOrder(fK256), 32, 64, fK256.FromBytes, fK256.FromWideBytes),
-		mkField("p256.scalar", fieldOrder(fP256), 32, 64, fP256.FromBytes, fP256.FromWideBytes),
-		mkField("ed25519.scalar", fieldOrder(fEd25519), 32, 64, fEd25519.FromBytes, fEd25519.FromWideBytes),
-		mkField("pallas.scalar", fieldOrder(fPallas), 32, 64, fPallas.FromBytes, fPallas.FromWideBytes),
-		mkField("vesta.scalar", c13pPallas, 32, 64, pasta.NewVestaScalarField().FromBytes, pasta.NewVestaScalarField().FromWideBytes),
-		mkField("bls12381.scalar", fieldOrder(fBLS), 32, 64, fBLS.FromBytes, fBLS.FromWideBytes),
-		mkField("k256.base", c13pK256, 32, 64, k256.NewBaseField().FromBytes, k256.NewBaseField().FromWideBytes),
-		mkField("p256.base", c13pP256, 32, 64, p256.NewBaseField().FromBytes, p256.NewBaseField().FromWideBytes),
-		mkField("ed25519.base", c13p25519, 32, 64, edwards25519.NewBaseField().FromBytes, edwards25519.NewBaseField().FromWideBytes),
-		mkField("bls12381.base", c13pBLS, 48, 96, bls12381.NewG1BaseField().FromBytes, bls12381.NewG1BaseField().FromWideBytes),
+		mkField("k256.scalar", fieldOrder(fK256), 32, 64, fK256.FromBytes, fK256.FromWideBytes, fK256.FromBytesBEReduce),
+		mkField("p256.scalar", fieldOrder(fP256), 32, 64, fP256.FromBytes, fP256.FromWideBytes, fP256.FromBytesBEReduce),
+		mkField("ed25519.scalar", fieldOrder(fEd25519), 32, 64, fEd25519.FromBytes, fEd25519.FromWideBytes, fEd25519.FromBytesBEReduce),
+		mkField("pallas.scalar", fieldOrder(fPallas), 32, 64, fPallas.FromBytes, fPallas.FromWideBytes, fPallas.FromBytesBEReduce),
+		mkField("vesta.scalar", c13pPallas, 32, 64, pasta.NewVestaScalarField().FromBytes, pasta.NewVestaScalarField().FromWideBytes, pasta.NewVestaScalarField().FromBytesBEReduce),
+		mkField("bls12381.scalar", fieldOrder(fBLS), 32, 64, fBLS.FromBytes, fBLS.FromWideBytes, fBLS.FromBytesBEReduce),
+		mkField("k256.base", c13pK256, 32, 64, k256.NewBaseField().FromBytes, k256.NewBaseField().FromWideBytes, k256.NewBaseField().FromBytesBEReduce),
+		mkField("p256.base", c13pP256, 32, 64, p256.NewBaseField().FromBytes, p256.NewBaseField().FromWideBytes, p256.NewBaseField().FromBytesBEReduce),
+		mkField("ed25519.base", c13p25519, 32, 64, edwards25519.NewBaseField().FromBytes, edwards25519.NewBaseField().FromWideBytes, edwards25519.NewBaseField().FromBytesBEReduce),
+		mkField("bls12381.base", c13pBLS, 48, 96, bls12381.NewG1BaseField().FromBytes, bls12381.NewG1BaseField().FromWideBytes, bls12381.NewG1BaseField().FromBytesBEReduce),
 	}
 	n := 20
 	if c.Thorough() {
@@ -1282,6 +1291,35 @@ func c13Scalars(c *Ctx) {
 			out := safely(func() string { return res(f.wideF(b)) })
 			c.Emit(fmt.Sprintf("swide %s %s %d %s", f.name, q, f.wide, hexBytes(b)), out)
 			c.Count("swide." + f.name)
+		}
+		// FromBytesBEReduce: any length, the value is the big-endian integer modulo the order
+		var reds [][]byte
+		for _, v := range vals {
+			if v.Sign() >= 0 {
+				reds = append(reds, v.Bytes(), beFixed(v, f.size))
+			}
+		}
+		for i := 0; i < n; i++ {
+			b := make([]byte, r.IntN(2*f.size+4))
+			_, _ = r.Read(b)
+			if r.IntN(4) == 0 {
+				for k := range b {
+					b[k] = 0xff
+				}
+			}
+			reds = append(reds, b)
+		}
+		for k := 0; k < 4; k++ { // multiples of the order, wider than the field
+			m := new(big.Int).Mul(f.order, new(big.Int).Lsh(big.NewInt(1), uint(8*f.size*k/2)))
+			reds = append(reds, m.Bytes(), new(big.Int).Sub(m, big.NewInt(1)).Bytes(), new(big.Int).Add(m, big.NewInt(1)).Bytes())
+		}
+		for _, b := range reds {
+			if len(b) == 0 {
+				c.Note("TRIVIAL")
+			}
+			out := safely(func() string { return res(f.redF(b)) })
+			c.Emit(fmt.Sprintf("sred %s %s %s", f.name, q, hexBytes(b)), out)
+			c.Count("sred." + f.name)
 		}
 	}
 }
